@@ -91,7 +91,7 @@ func GenFaults(rt *rapid.T, t Tree, o FaultOpts) []Fault {
 		case KFile:
 			if o.Content {
 				if len(e.Data) > 0 {
-					kinds = append(kinds, "flip", "flip", "truncate", "extend", "empty", "reseed")
+					kinds = append(kinds, "flip", "flip", "truncate", "extend", "empty", "reseed", "weakcollide")
 				} else {
 					kinds = append(kinds, "fill")
 				}
@@ -122,7 +122,7 @@ func GenFaults(rt *rapid.T, t Tree, o FaultOpts) []Fault {
 		}
 		f := Fault{Kind: rapid.SampledFrom(kinds).Draw(rt, "faultkind"), Path: p, Seed: rapid.Uint64().Draw(rt, "faultseed")}
 		switch f.Kind {
-		case "flip":
+		case "flip", "weakcollide":
 			f.Off = blockEdgeOffset(rt, len(e.Data), "flipoff")
 		case "truncate":
 			f.N = blockEdgeOffset(rt, len(e.Data), "truncto")
@@ -172,6 +172,17 @@ func ApplyFaults(t Tree, fs []Fault) (Tree, []Fault) {
 			}
 			nd := append([]byte{}, e.Data...)
 			nd[f.Off] ^= byte(1 << (f.Seed % 8))
+			e.Data = nd
+		case "weakcollide":
+			// three adjacent bytes changed by +1, -2, +1 inside one block: both sums of the rsync
+			// rolling checksum are preserved, only the strong hash notices
+			if e.Kind != KFile {
+				continue
+			}
+			nd, ok := WeakCollide(e.Data, f.Off)
+			if !ok {
+				continue
+			}
 			e.Data = nd
 		case "truncate":
 			if e.Kind != KFile || f.N >= len(e.Data) {
@@ -249,4 +260,25 @@ func sortedKeys(m map[string]int) []string {
 	}
 	sort.Strings(ks)
 	return ks
+}
+
+// WeakCollide returns a copy of data in which three adjacent bytes near off, all inside one
+// 64 KiB block, are changed by +1, -2, +1 without wrapping: the rsync weak checksum of the block
+// is unchanged. ok is false if no suitable position exists near off.
+func WeakCollide(data []byte, off int) ([]byte, bool) {
+	for d := 0; d < 4096; d++ {
+		for _, i := range []int{off + d, off - d} {
+			if i < 0 || i+2 >= len(data) || i/BlockSize != (i+2)/BlockSize {
+				continue
+			}
+			if data[i] < 255 && data[i+1] >= 2 && data[i+2] < 255 {
+				nd := append([]byte{}, data...)
+				nd[i]++
+				nd[i+1] -= 2
+				nd[i+2]++
+				return nd, true
+			}
+		}
+	}
+	return nil, false
 }
